@@ -75,6 +75,7 @@ type Shared struct {
 	P      *Prog
 	l      *LFacts
 	bodies []*applyBody
+	u      *Units
 }
 
 func (s *Shared) Lockset() *LFacts {
